@@ -63,6 +63,15 @@ impl Boundary {
         add("script->script", "viacall", Shape::Id, &[], format!("fn viacall(x: {s}) -> {s} {{\n    id(id(x))\n}}\n"));
         add("clone-to-host-and-return", "both", Shape::Id, &["sink"], format!("fn both(x: {s}) -> {s} {{\n    sink_{i}(x);\n    x\n}}\n"));
         add("host-roundtrip", "hostret", Shape::Id, &["sink", "src"], format!("fn hostret(x: {s}) -> {s} {{\n    sink_{i}(x);\n    src_{i}()\n}}\n"));
+        // a list made by the script: the element stride is the script's own idea of the size of T
+        add("script-builds-list", "lst3", Shape::ListOf3, &[], format!("fn lst3(a: {s}, b: {s}, c: {s}) -> List[{s}] {{\n    [a, b, c]\n}}\n"));
+        add(
+            "script-list-element",
+            "lstget",
+            Shape::ListGet,
+            &[],
+            format!("fn lstget(a: {s}, b: {s}) -> Option[{s}] {{\n    let l = [a];\n    l.push(b);\n    l.get(1)\n}}\n"),
+        );
         if t.desc.has_enum_layer() && t.desc.rebuild("x", 0) != "x" {
             add("match-and-rebuild", "rb", Shape::Id, &[], format!("fn rb(x: {s}) -> {s} {{\n    {}\n}}\n", t.desc.rebuild("x", 0)));
         }
